@@ -18,7 +18,8 @@ TrCall == /\ IsEvent("scall") /\ Consume /\ pend[Ev.h].op = ""
 Upd(h, r) == sk' = [sk EXCEPT ![h] = r]
 ClosedRule(h) == LIFE => (Ev.ok = 0 /\ Ev.err = NotAvailable /\ Ev.nsys = 0)       \* fails without touching any descriptor
 BlockingWait(r) == LIFE => (IF r.blocking THEN (Ev.npoll >= 1 /\ Ev.pto = (IF r.timeout > 0 THEN r.timeout ELSE -1)) ELSE Ev.npoll = 0)
-TimeoutRule(r) == LIFE => (r.blocking /\ r.timeout > 0 /\ Ev.err = TimedOut /\ Ev.ms >= r.timeout - 1)
+TimeoutRule(r) == /\ (Ev.err = TimedOut /\ r.timeout > 0) => Ev.ms >= r.timeout - 1     \* in every mode: never "timed out" before T
+                  /\ LIFE => (r.blocking /\ r.timeout > 0 /\ Ev.err = TimedOut /\ Ev.ms >= r.timeout - 1)
 NoBlockErr == IO => Ev.err # WouldBlock
 RetNew(h) == /\ Ev.ok = 1 /\ (LIFE => Ev.cloexec = 1)
              /\ Upd(h, [NoSock EXCEPT !.ex = TRUE, !.udp = (pend[h].s = "udp"), !.backlog = Ev.g[6]])
@@ -37,6 +38,14 @@ RetConnect(h) == LET L == pend[h].a IN
               /\ \/ Ev.ok = 1 /\ Upd(h, [sk[h] EXCEPT !.conn = TRUE])
                  \/ Ev.ok = 0 /\ Ev.err \in {InProgress, WouldBlock} /\ UNCHANGED sk
               /\ queue' = [queue EXCEPT ![L] = Append(@, h)] /\ UNCHANGED <<sent, rcvd, dg>>
+(* connect to a listener whose accept queue is full and that nobody drains: TRUE only for a connection the OS reports as     *)
+(* established; otherwise a blocking socket with timeout T fails with the timed-out error not before T and stays unconnected. *)
+RetConnectFull(h) == IF sk[h].closed THEN ClosedRule(h) /\ UNCHANGED kvars
+                     ELSE /\ IF Ev.ok = 1 THEN Ev.osconn = 1 /\ Upd(h, [sk[h] EXCEPT !.conn = TRUE])
+                             ELSE /\ IF sk[h].blocking THEN Ev.err = TimedOut /\ TimeoutRule(sk[h])
+                                                       ELSE Ev.err \in {InProgress, WouldBlock} /\ (LIFE => Ev.npoll = 0)
+                                  /\ UNCHANGED sk
+                          /\ UNCHANGED <<queue, sent, rcvd, dg>>
 RetConnectDead(h) == IF sk[h].closed THEN ClosedRule(h) /\ UNCHANGED kvars
                      ELSE /\ Ev.ok = 0 /\ (IF sk[h].blocking THEN Ev.err = Refused ELSE Ev.err \in {InProgress, WouldBlock, Refused})
                           /\ UNCHANGED kvars
@@ -97,7 +106,7 @@ TrRet == /\ IsEvent("sret") /\ Consume
          /\ LET h == Ev.h IN
             /\ pend[h].op = Ev.op
             /\ CASE Ev.op = "new" -> RetNew(h) [] Ev.op = "bind" -> RetBind(h) [] Ev.op = "listen" -> RetListen(h)
-                 [] Ev.op = "connect" -> RetConnect(h) [] Ev.op = "connectdead" -> RetConnectDead(h) [] Ev.op = "accept" -> RetAccept(h)
+                 [] Ev.op = "connect" -> RetConnect(h) [] Ev.op = "connectdead" -> RetConnectDead(h) [] Ev.op = "connectfull" -> RetConnectFull(h) [] Ev.op = "accept" -> RetAccept(h)
                  [] Ev.op = "send" -> RetSend(h) [] Ev.op = "recv" -> RetRecv(h) [] Ev.op = "sendto" -> RetSendTo(h)
                  [] Ev.op = "recvfrom" -> RetRecvFrom(h) [] Ev.op = "set" -> RetSet(h) [] Ev.op = "shutdown" -> RetShutdown(h)
                  [] Ev.op = "close" -> RetClose(h) [] Ev.op = "free" -> RetFree(h) [] Ev.op = "getters" -> UNCHANGED kvars
@@ -106,6 +115,7 @@ TrRet == /\ IsEvent("sret") /\ Consume
             /\ pend' = [pend EXCEPT ![h] = NoCall]
 TrReset == IsEvent("Reset") /\ Consume /\ sk' = [h \in Socks |-> NoSock] /\ queue' = [h \in Socks |-> <<>>] /\ sent' = [h \in Socks |-> 0]
            /\ rcvd' = [h \in Socks |-> 0] /\ dg' = [h \in Socks |-> {}] /\ pend' = [h \in Socks |-> NoCall]
-TNext == TrCall \/ TrRet \/ TrReset
+TrFill == IsEvent("fill") /\ Consume /\ UNCHANGED <<kvars, pend>>
+TNext == TrCall \/ TrRet \/ TrReset \/ TrFill
 TSpec == TInit /\ [][TNext]_tv
 ====
